@@ -238,6 +238,30 @@ PROPS.update({
     },
 })
 
+PROPS.update({
+    "C07": {
+        "tests": "^TestC07_",
+        "quick": {"scale": 2.0, "timeout": 900},
+        "thorough": {"scale": 20.0, "shards": 16, "timeout": 1800},
+        "rule": "rapid: a valid create/update/recover/deactivate (hand-assembled; all key types, nonce sizes 1/8/16/32, both hash "
+                "algorithms, 1-3 validated patches, optional window/anchor origin/type; plain or varied JSON spelling) and a protocol in "
+                "which every limit is exactly tight for it (max operation size = input length, max delta size = canonical delta length, "
+                "max hash length = hash length, algorithm/curve/patch lists containing what is used plus random others in random order). "
+                "It must be accepted and reported with type, unique suffix (refHash under the first algorithm for create), namespaced id, "
+                "the original bytes and the request's anchor origin. Then exactly one labelled violation: 8 configuration-side (size-1, "
+                "delta size-1, hash length-1, algorithm not listed, used action disabled, signature algorithm / key curve not allowed, "
+                "nonce size +-1) or ~20 request-side (type unknown/missing, each hash field recomputed with an unlisted algorithm or "
+                "lengthened, delta missing/empty/invalid patch at any position/one byte over, alg missing/empty, extra header, JWK member "
+                "missing, nonce undecodable, reveal of another key, missing suffix/signed data/suffix data, update = recovery commitment, "
+                "next commitment = current key, signed suffix mismatch) => must be refused. Non-trivial: every violated case; cells "
+                "(type x label) reported; distinct by (type, label, request, limits).",
+        "technique": "property-based testing (rapid) with by-construction verdicts: valid under exactly-tight limits, then one labelled rule violation",
+        "level_text": "Randomised exploration with a complete catalogue of single-rule violations and off-by-one limits.",
+        "level_note": "Trusts the harness request builder and its own size/hash computations (refJCS, refHash).",
+        "assumptions": ["only rules with an explicit check in the parser are in the catalogue; 'recover's update commitment must differ from the current key' is not asserted (ambiguous, absent from code and spec text)"],
+    },
+})
+
 NOT_APPLICABLE = {p: "check not built yet (work in progress; this entry is temporary)" for p in
                   ["C%02d" % i for i in range(1, 21)]}
 HOOK_COMMITS = []
